@@ -148,7 +148,14 @@ def run(ctx):
                        'which the frame learns that the object was unregistered), the object is touched after user code ran only where '
                        'that local was found non-NULL since, and every exported entry point that ends the registration of that kind of '
                        'object stores NULL through the field on every path (or finds the field NULL)', floor=2)
+    ctx.rule('R-C18m', 'EMBEDDED-UNREGISTERED: a block is passed to free only with every loop object embedded in it (timer, task, event, '
+                       'wait interest, descriptor ... a member of a kind with an exported register/unregister pair) unregistered: on every '
+                       'path to the free, in every entry point that reaches it, the member was unregistered since its last registration, or '
+                       'the block is fresh and the member was never successfully registered, or the activation is the one-shot member\'s own '
+                       'handler, or the path finds false a fact that holds at every registration of the member and is undone only with the '
+                       'member unregistered', floor=12)
     ctx.section(radix)
+    ctx.section(embedded_members)
     ctx.section(local_blocks)
     ctx.section(live_markers)
     ctx.section(array_bounds)
@@ -343,13 +350,47 @@ def _addr_of_local(x, name):
     return False
 
 
+def _copy_aliases(f):
+    """{local: variable node it is a copy of}: pointer locals with exactly one definition in f, a plain copy (casts
+    stripped) of another variable that has no definition in f (a parameter) or exactly one (followed in turn)"""
+    defs = {}
+    for x in f.events():
+        if x['ev'] == 'store' and isinstance(strip(x['lhs']), dict) and strip(x['lhs']).get('k') == 'var':
+            defs.setdefault(strip(x['lhs'])['name'], []).append(x)
+    params = {p_['name'] for p_ in f.params if p_.get('name')}
+    out = {}
+
+    def src(n, seen):
+        ds = defs.get(n, [])
+        if len(ds) != 1 or ds[0].get('op') != '=' or 'rhs' not in ds[0] or n in seen:
+            return None
+        r = strip(strip_load(strip(ds[0]['rhs'])))
+        if not (isinstance(r, dict) and r.get('k') == 'var' and r.get('vk') in ('local', 'param') and r.get('name') != n):
+            return None
+        if not defs.get(r['name']):
+            return r if (r['name'] in params or r.get('vk') == 'param') else None
+        return src(r['name'], seen | {n}) or (r if len(defs[r['name']]) == 1 else None)
+    for n in defs:
+        t = src(n, frozenset())
+        if t is not None:
+            out[n] = t
+    return out
+
+
 def _frame_cleared(f, e, vname=None):
     """the location e stored a frame address into holds a non-stack value again at every return of f, or the return is
     reached over an edge on which the published local itself reads NULL although this function never stores NULL into
     it: the holder wrote through the published pointer when it went away (the `*this->term = NULL` protocol)"""
     l = strip(e['lhs'])
-    # `(*&v)->f` (written by a helper that was handed &v, helper inlined) is `v->f`
-    lc = canon(h18.deref_norm(None, e['lhs']))
+    # `(*&v)->f` (written by a helper that was handed &v, helper inlined) is `v->f`; a pointer local that this function
+    # assigns exactly once, a copy of another pointer variable that is itself never re-assigned (`live = self`),
+    # designates that variable's object wherever it may be dereferenced (it is either that value or was nulled by the
+    # holder through the published address, and then it is not dereferenced)
+    al = _copy_aliases(f)
+
+    def _an(x):
+        return canon(subst(h18.deref_norm(None, x), lambda n: al.get(n['name']) if n.get('k') == 'var' and n.get('name') in al else None))
+    lc = _an(e['lhs'])
     self_nulled = vname is None or any(
         x['ev'] == 'store' and strip(x['lhs']).get('k') == 'var' and var_name(x['lhs']) == vname and 'rhs' in x
         and canon(x['rhs']) in ('NULL', '0') for x in f.events())
@@ -359,7 +400,7 @@ def _frame_cleared(f, e, vname=None):
             return False
         if s is None:
             return None
-        if x['ev'] == 'store' and canon(h18.deref_norm(None, x['lhs'])) == lc:
+        if x['ev'] == 'store' and _an(x['lhs']) == lc:
             rr = strip(x.get('rhs')) if 'rhs' in x else None
             return not (isinstance(rr, dict) and rr.get('k') == 'addr')
         return s
@@ -1365,6 +1406,90 @@ def _fmt(v):
     return '-inf' if v == -INF else 'inf' if v == INF else str(int(v))
 
 
+def _stride(V, x, depth=0):
+    """m >= 1 such that every value of the integer expression x is a multiple of m (constant factors, shifts, sums;
+    single-definition locals followed)"""
+    x = strip(strip_load(strip(x))) if isinstance(x, dict) else x
+    if not isinstance(x, dict) or depth > 6:
+        return 1
+    if x.get('k') == 'int':
+        return abs(x['v']) if x['v'] else 0
+    if x.get('k') == 'cast' and '*' not in str(x.get('to', '')):
+        return 1      # a conversion may wrap
+    if x.get('k') == 'var':
+        d = V.sole_def(x)
+        return _stride(V, d['rhs'], depth + 1) if d is not None else 1
+    if x.get('k') == 'bin':
+        a, b = _stride(V, x['l'], depth + 1), _stride(V, x['r'], depth + 1)
+        if x['op'] == '*':
+            return a * b
+        if x['op'] in ('+', '-'):
+            import math
+            return math.gcd(a, b) or 0
+        if x['op'] == '<<' and _intval(x['r']) is not None and 0 <= _intval(x['r']) < 31:
+            return a << _intval(x['r'])
+    return 1
+
+
+def _offset_range(V, j, pt):
+    """range of the element offset j; `E & (2^n - 1)` with E a multiple of 2^s (s < n) is a multiple of 2^s as well,
+    so it is at most 2^n - 2^s"""
+    lo, hi = V.range(j, pt)
+    x = strip(strip_load(strip(j))) if isinstance(j, dict) else j
+    if isinstance(x, dict) and x.get('k') == 'bin' and x['op'] == '&':
+        for (m_, o_) in ((x['l'], x['r']), (x['r'], x['l'])):
+            c = V.range(m_, pt)
+            if c[0] == c[1] and c[0] > 0 and (c[0] & (c[0] + 1)) == 0:
+                st = _stride(V, o_)
+                if st == 0:
+                    return (0, 0)
+                low = st & -st           # the power of two dividing every value
+                if 1 < low <= c[0]:
+                    hi = min(hi, c[0] + 1 - low)
+    return lo, hi
+
+
+def _interior_pointer(V, base):
+    """(constant bound of A, range of j, text of j) when the pointer value `base` is `&A[j]` / `A + j`, followed through
+    single-definition locals, helper results and pointer casts; None otherwise"""
+    x = base
+    pt = None
+    for _ in range(8):
+        x = strip(strip_load(strip(x))) if isinstance(x, dict) else x
+        if not isinstance(x, dict):
+            return None
+        if x.get('k') == 'cast':
+            x = x['e']
+            continue
+        if x.get('k') == 'var':
+            d = V.sole_def(x)
+            if d is None:
+                return None
+            pt = (d['_b'], d['_i'])
+            x = d['rhs']
+            continue
+        break
+    if pt is None or not isinstance(x, dict):
+        return None
+    arr = j = None
+    if x.get('k') == 'addr':
+        t = strip(x['e'])
+        if isinstance(t, dict) and t.get('k') == 'index':
+            arr, j = t['base'], t['idx']
+            b = t.get('bound')
+    elif x.get('k') == 'bin' and x.get('op') == '+':
+        arr, j = x['l'], x['r']
+        b = None
+    if arr is None:
+        return None
+    if b is None:
+        cap = V.capacity(arr)
+        b = cap[0] if cap is not None else None
+    if b is None:
+        return None
+    return (b, _offset_range(V, j, pt), canon(j))
+
+
 def prove_subscript(prog, V, site):
     e, ix = site
     pt = (e['_b'], e['_i'])
@@ -1380,6 +1505,17 @@ def prove_subscript(prog, V, site):
         if cap is not None and cap[0] is not None:
             bound = cap[0]
     lo, hi = V.range(idx, pt)
+    if bound is None:
+        # the base is a pointer *into* an array of constant bound (`p = &A[j]`, `A + j`, handed back by a helper): the
+        # element accessed is A[j + index]
+        ip = _interior_pointer(V, ix['base'])
+        if ip is not None:
+            ibound, (jlo, jhi), jtxt = ip
+            if jlo + lo >= 0 and jhi + hi < ibound:
+                return ('the base points at element %s (in [%s, %s]) of an array of constant bound %d and the index lies in [%s, %s]: '
+                        'the element accessed is inside that array' % (jtxt, _fmt(jlo), _fmt(jhi), ibound, _fmt(lo), _fmt(hi)), '')
+            return (None, 'the base points at element %s (in [%s, %s]) of an array of bound %d, index `%s` ranges over [%s, %s]; facts here: %s'
+                    % (jtxt, _fmt(jlo), _fmt(jhi), ibound, ic, _fmt(lo), _fmt(hi), facts or 'none'))
     if bound is not None:
         if lo >= 0 and hi < bound:
             return ('value range of the index [%s, %s] lies inside the constant bound %d' % (_fmt(lo), _fmt(hi), bound), '')
@@ -2712,3 +2848,481 @@ def owned_descriptors(ctx):
             for loc, (site, proof, det, kind) in sorted(res.items(), key=lambda kv: h18._locpos(kv[0])):
                 ctx.ob('R-C18j.fd', '%s.%s:free in %s' % (rec, '.'.join(path), f.name), bool(proof), loc=loc,
                        detail='%s (%s)' % (det, kind), fn=f.q)
+
+
+# --------------------------------------------------------------------------
+# R-C18m: a block is passed to free only with every loop object embedded in it unregistered
+# --------------------------------------------------------------------------
+
+ONE_SHOT_KINDS = ('iv_timer_', 'iv_task_')      # the runner takes these out of its structures before it calls the handler (C01 one_shot)
+LIST_ADDS = ('iv_list_add', 'iv_list_add_tail')
+LIST_DELS = ('iv_list_del', 'iv_list_del_init')
+
+
+def _kind_api(prog):
+    """{record name of a loop-object kind (private and public spelling): (register functions, unregister functions,
+    one-shot?)} -- the exported register/unregister pairs of generic.OBJECT_KINDS"""
+    out = {}
+    for K in generic.OBJECT_KINDS:
+        regs = [r for r in K['reg'] if 'register' in r and prog.has_fn(r)]
+        unregs = sorted({r[:r.index('register')] + 'unregister' for r in regs})
+        unregs = [u for u in unregs if prog.has_fn(u)]
+        if not regs or not unregs:
+            continue
+        v = (tuple(regs), tuple(unregs), K['rec'] in ONE_SHOT_KINDS)
+        out[K['rec']] = v
+        if K['rec'].endswith('_'):
+            out[K['rec'][:-1]] = v
+    return out
+
+
+def _registry_records(prog, api):
+    """records into whose own fields a register function of some kind writes (the per-thread state: counters, lists,
+    trees of registered objects): an object registered there and embedded in that very block goes with the block"""
+    out = set()
+    inl = Inliner(prog, stop=lambda t: not t.static)
+    for names in {v[0] for v in api.values()}:
+        for n in names:
+            try:
+                g = inl.inline(prog.fn(n))
+            except AnalysisBroken:
+                continue
+            for e in g.events():
+                if e['ev'] == 'store':
+                    lm = last_member(e['lhs'])
+                    if lm and lm[0] not in api and not str(lm[0]).startswith('<anon'):
+                        out.add(lm[0])
+    return out
+
+
+class _Emb(object):
+    """typestate of one embedded member (rec.fld, of kind api entry K) in one function g (static helpers inlined)"""
+
+    def __init__(self, prog, g, rec, fld, K, handlers):
+        self.prog, self.g, self.rec, self.fld, self.K = prog, g, rec, fld, K
+        self.al = _copy_aliases(g)
+        self.handlers = handlers
+        self.int_regs = {n for n in K[0] if prog.has_fn(n) and str(prog.fn(n).ret).strip() != 'void'}
+
+    def an(self, x):
+        al = self.al
+
+        def fn(n):
+            if '_was' in n:      # an access path that copy propagation put in the place of the read of a caching local
+                return al.get(n['_was']) or {'k': 'var', 'vk': 'local', 'name': n['_was']}
+            return al.get(n['name']) if n.get('k') == 'var' and n.get('name') in al else None
+        return canon(subst(h18.deref_norm(None, x), fn))
+
+    def resolve(self, x):
+        """x with single-definition locals of g followed (value at the time of that one assignment)"""
+        defs = self.__dict__.get('_defs')
+        if defs is None:
+            defs = {}
+            for e in self.g.events():
+                if e['ev'] == 'store' and isinstance(strip(e['lhs']), dict) and strip(e['lhs']).get('k') == 'var':
+                    defs.setdefault(strip(e['lhs'])['name'], []).append(e)
+            self._defs = defs
+        x = strip(strip_load(strip(x))) if isinstance(x, dict) else x
+        for _ in range(6):
+            if not (isinstance(x, dict) and x.get('k') == 'var' and x.get('vk') in ('local', 'param')):
+                break
+            ds = defs.get(x['name'], [])
+            if len(ds) != 1 or ds[0].get('op') != '=' or 'rhs' not in ds[0]:
+                break
+            r = strip(strip_load(strip(ds[0]['rhs'])))
+            while isinstance(r, dict) and r.get('k') == 'cast':
+                r = strip(strip_load(strip(r['e'])))
+            if not (isinstance(r, dict) and r.get('k') in ('var', 'addr')):
+                break
+            x = r
+        return x
+
+    def member_addr(self, x):
+        """(record, field, normalised base) when the pointer value x is `&B->field`"""
+        x = self.resolve(x)
+        while isinstance(x, dict) and x.get('k') == 'cast':
+            x = strip(strip_load(strip(x['e'])))
+        if isinstance(x, dict) and x.get('k') == 'addr':
+            m = strip(h18.deref_norm(None, x['e']))
+            if isinstance(m, dict) and m.get('k') == 'member' and last_member(m):
+                return last_member(m) + (self.an(m['base']) if m.get('arrow') else '&' + self.an(m['base']),)
+        return None
+
+    def field_of(self, x):
+        m = strip(strip_load(strip(h18.deref_norm(None, x)))) if isinstance(x, dict) else x
+        if isinstance(m, dict) and m.get('k') == 'member' and last_member(m):
+            return last_member(m) + (self.an(m['base']) if m.get('arrow') else '&' + self.an(m['base']),)
+        return None
+
+    def is_member(self, e, names, base):
+        if e['ev'] not in ('call', 'enter') or e.get('callee') not in names or not e.get('args'):
+            return False
+        ma = self.member_addr(e['args'][0])
+        return ma is not None and ma[0] == self.rec and ma[1] == self.fld and (base is None or ma[2] == base)
+
+    def own_handler(self, base):
+        """g is the handler installed in this one-shot member and `base` is its cookie argument: the runner has taken the
+        member out of its structures before the call"""
+        params = {p_['name'] for p_ in self.g.params if p_.get('name')}
+        return bool(self.K[2] and self.g.q in self.handlers and base in params)
+
+    def states(self, base, guards=(), trust_own=True):
+        """{point: 'U' | 'R' | ('T', holder) | '?'} for the member of the block `base` (normalised spelling)"""
+        g, K = self.g, self.K
+        init = 'U' if (trust_own and self.own_handler(base)) else '?'
+
+        def tr(e, s):
+            if e['ev'] == 'store' and e.get('op') == '=' and 'rhs' in e:
+                l = strip(e['lhs'])
+                r = strip(e['rhs'])
+                while isinstance(r, dict) and r.get('k') in ('cast', 'load', 'paren') and isinstance(r.get('e'), dict):
+                    r = strip(r['e'])
+                if isinstance(l, dict) and l.get('k') == 'var' and self.an(l) == base and isinstance(r, dict) and r.get('k') == 'call' \
+                        and r.get('callee') in MEM_PRIMS:
+                    return 'U'      # a fresh block: nothing in it was ever registered
+                if isinstance(s, tuple) and s[1] is None and isinstance(r, dict) and r.get('k') == 'call' and r.get('callee') in K[0] \
+                        and isinstance(l, dict) and l.get('k') == 'var':
+                    return ('T', l['name'])
+                return s
+            if self.is_member(e, K[1], base):
+                return 'U'
+            if self.is_member(e, K[0], base):
+                return ('T', None) if (e.get('callee') in self.int_regs and e.get('used')) else 'R'
+            return s
+
+        def edge(blk, si, s):
+            if not (blk.term and blk.term.get('cond') is not None and len(blk.succ) == 2):
+                return s
+            cv = _intval(blk.term['cond'])
+            if cv is not None and bool(cv) != (si == 0):
+                return None     # a condition that is a constant in this calling context: the other edge is never taken
+            if s == 'U':
+                return s
+            for (op, a, b, l, r) in norm_cond(blk.term['cond'], si == 0):
+                if op == 'const':
+                    continue
+                if isinstance(s, tuple):
+                    lc = strip(l) if isinstance(l, dict) else None
+                    direct = isinstance(lc, dict) and lc.get('k') == 'call' and lc.get('callee') in K[0]
+                    if (a == s[1] or direct) and ((op == '<' and b == '0') or (op == '==' and b == '-1') or (op == '<=' and b == '-1')):
+                        return 'U'      # the registration failed: the object is not registered
+                for G in guards:
+                    if G[0] == 'eq' and isinstance(l, dict):
+                        fo = self.field_of(l)
+                        if fo is None and s == '?':
+                            # a local that cached the field (one definition); the member was not registered by this activation
+                            # since, so what the field held then still decides
+                            lv = strip(strip_load(strip(l)))
+                            if isinstance(lv, dict) and lv.get('k') == 'var' and lv.get('vk') == 'local':
+                                self.resolve(lv)
+                                ds = self._defs.get(lv['name'], [])
+                                if len(ds) == 1 and ds[0].get('op') == '=' and 'rhs' in ds[0]:
+                                    fo = self.field_of(ds[0]['rhs'])
+                        if fo is not None and fo == (self.rec, G[1], base) and ((op == '!=' and b == G[2]) or (op == '==' and b != G[2] and _is_const_text(b))):
+                            return 'U'
+                    if G[0] == 'linked' and list_empty_test((op, a, b, l, r)) == 'empty':
+                        ma = self.member_addr(strip(l)['args'][0])
+                        if ma is not None and ma == (self.rec, G[1], base):
+                            return 'U'
+            return s
+
+        def jn(a, b):
+            if a == b:
+                return a
+            return 'R' if ('R' in (a, b) or isinstance(a, tuple) or isinstance(b, tuple)) else '?'
+        # the typestate is kept apart per sign class of the plain locals that carry a helper's result to the caller's test
+        # (`return -1` after the failed registration / `return fd` after the successful one; `if (fd < 0) free(B)`): a
+        # disjunct is (typestate, {(local, 'neg' | 'nonneg')})
+        pipes = set()
+        for e in g.events():
+            if e['ev'] in ('call', 'enter') and e.get('callee') in ('pipe', 'pipe2') and e.get('args'):
+                pipes.add(self.an(self.resolve(e['args'][0])))
+
+        def cls_of(r, env):
+            r = strip(strip_load(strip(r))) if isinstance(r, dict) else r
+            while isinstance(r, dict) and r.get('k') in ('cast', 'paren') and isinstance(r.get('e'), dict):
+                r = strip(strip_load(strip(r['e'])))
+            if not isinstance(r, dict):
+                return None
+            if r.get('k') == 'int':
+                return 'neg' if r['v'] < 0 else 'nonneg'
+            if r.get('k') == 'un' and r.get('op') == '-' and _intval(r.get('e')) is not None:
+                return 'neg' if _intval(r['e']) > 0 else 'nonneg'
+            if r.get('k') == 'var':
+                return dict(env).get(r['name'])
+            if r.get('k') == 'index' and isinstance(r.get('base'), dict):
+                names = {self.an(self.resolve(r['base']))}
+                bv = strip(strip_load(strip(r['base'])))
+                if isinstance(bv, dict) and bv.get('k') == 'var':
+                    ds = self._defs.get(bv['name'], [])
+                    if len(ds) == 1 and ds[0].get('op') == '=' and 'rhs' in ds[0]:
+                        names.add(self.an(ds[0]['rhs']))      # `int *pair = info->data_pipe` (one definition)
+                if names & pipes:
+                    return 'nonneg'      # a descriptor the kernel handed out
+            return None
+
+        def trD(e, S):
+            out = set()
+            for (ts, env) in S:
+                ts2 = tr(e, ts)
+                if e['ev'] == 'store' and isinstance(strip(e['lhs']), dict) and strip(e['lhs']).get('k') == 'var':
+                    n = strip(e['lhs'])['name']
+                    c = cls_of(e['rhs'], env) if (e.get('op') == '=' and 'rhs' in e) else None
+                    env = frozenset(x for x in env if x[0] != n) | ({(n, c)} if c else frozenset())
+                out.add((ts2, env))
+            return frozenset(out)
+
+        def edgeD(blk, si, S):
+            out = set()
+            atoms = []
+            if blk.term and blk.term.get('cond') is not None and len(blk.succ) == 2:
+                atoms = [x for x in norm_cond(blk.term['cond'], si == 0) if x[0] != 'const']
+            for (ts, env) in S:
+                ts2 = edge(blk, si, ts)
+                if ts2 is None:
+                    continue
+                d = dict(env)
+                dead = False
+                for (op, a_, b_, _, _) in atoms:
+                    c = d.get(a_)
+                    if c == 'nonneg' and ((op == '<' and b_ == '0') or (op in ('==', '<=') and b_ == '-1')):
+                        dead = True
+                    if c == 'neg' and ((op == '>=' and b_ == '0') or (op == '>' and b_ == '-1')):
+                        dead = True
+                if not dead:
+                    out.add((ts2, env))
+            return frozenset(out) if out else None
+
+        def jnD(A, B):
+            U_ = A | B
+            if len(U_) > 24:
+                t = None
+                for (ts, _) in U_:
+                    t = ts if t is None else jn(t, ts)
+                return frozenset({(t, frozenset())})
+            return U_
+        _, evD = forward(g, frozenset({(init, frozenset())}), trD, jnD, edge=edgeD)
+        ev_in = {}
+        for pt, S in evD.items():
+            t = None
+            for (ts, _) in S:
+                t = ts if t is None else jn(t, ts)
+            ev_in[pt] = t
+        return ev_in
+
+    def facts(self, init=frozenset()):
+        """{point: frozenset of (base, 'eq', field, const text) / (base, 'linked', field)}: what this activation has
+        established about fields of blocks of the record (must, forward)"""
+        rec = self.rec
+
+        def tr(e, s):
+            if s is None:
+                return None
+            if e['ev'] == 'store':
+                fo = self.field_of(e['lhs'])
+                if fo is not None and fo[0] == rec:
+                    s = frozenset(x for x in s if not (x[1] == 'eq' and x[2] == fo[1]))
+                    if e.get('op') == '=' and 'rhs' in e and _const_text(e['rhs']) is not None:
+                        s = s | {(fo[2], 'eq', fo[1], _const_text(e['rhs']))}
+                return s
+            if e['ev'] in ('call', 'enter') and e.get('callee') in LIST_ADDS + LIST_DELS and e.get('args'):
+                ma = self.member_addr(e['args'][0])
+                if ma is not None and ma[0] == rec:
+                    s = frozenset(x for x in s if not (x[1] == 'linked' and x[2] == ma[1]))
+                    if e['callee'] in LIST_ADDS:
+                        s = s | {(ma[2], 'linked', ma[1])}
+            return s
+
+        def jn(a, b):
+            if a is None:
+                return b
+            if b is None:
+                return a
+            return a & b
+        _, ev_in = forward(self.g, init, tr, jn)
+        return ev_in
+
+
+def _const_text(x):
+    x = strip(x)
+    while isinstance(x, dict) and x.get('k') in ('cast', 'paren') and isinstance(x.get('e'), dict):
+        x = strip(x['e'])
+    if isinstance(x, dict) and x.get('k') == 'null':
+        return '0'
+    if isinstance(x, dict) and x.get('k') == 'int':
+        return str(x['v'])
+    return None
+
+
+def _is_const_text(b):
+    return bool(re.match(r'^-?\d+$', str(b)))
+
+
+def embedded_members(ctx):
+    prog = ctx.prog
+    api = _kind_api(prog)
+    if not api:
+        raise AnalysisBroken('no register/unregister pair of a loop-object kind found')
+    registry = _registry_records(prog, api)
+    emb = {}
+    for rn, r in prog.records.items():
+        ms = [(f_['name'], f_['record']) for f_ in r.get('fields', []) if f_.get('record') in api and not f_.get('ptr')]
+        if ms:
+            emb[rn] = ms
+    inl = Inliner(prog, stop=lambda t: not t.static)
+    rts = {r.q: r for r in roles.roots(prog)}
+    cache = {}
+
+    def rooted(f):
+        """the functions f is analysed in: itself when it is an entry point (exported / address taken), else every
+        entry point that reaches it by direct calls; static helpers inlined"""
+        qs = [f.q] if f.q in rts else sorted(c.q for c in roles.callers_closure(prog, f) if c.q in rts)
+        out = []
+        for q in qs:
+            if q not in cache:
+                try:
+                    cache[q] = inl.inline(rts[q])
+                except AnalysisBroken:
+                    cache[q] = None
+            if cache[q] is not None:
+                out.append(cache[q])
+        return out
+
+    def arg_record(e):
+        a = strip(strip_load(strip(e['args'][0]))) if e.get('args') else None
+        if isinstance(a, dict) and a.get('ptr') and a.get('record') in emb and a.get('k') in ('var', 'member'):
+            return a['record']
+        return None
+
+    # handlers installed into the embedded member: `B->fld.handler = fn`
+    handlers = {}
+    for f in prog.all_funcs():
+        E0 = None
+        for e in f.events():
+            if e['ev'] == 'store' and e.get('op') == '=' and 'rhs' in e:
+                l = strip(e['lhs'])
+                r = strip(e['rhs'])
+                if isinstance(l, dict) and l.get('k') == 'member' and isinstance(r, dict) and r.get('k') == 'var' and r.get('vk') == 'func':
+                    lm = last_member(l)
+                    if not (lm and lm[1] == 'handler' and lm[0] in api and isinstance(l.get('base'), dict)):
+                        continue
+                    if l.get('arrow'):
+                        # through a pointer to the member (`t = &B->fld; t->handler = fn`, one definition)
+                        E0 = E0 or _Emb(prog, f, None, None, ((), (), False), ())
+                        ma = E0.member_addr(l['base'])
+                        bm = ma[:2] if ma is not None else None
+                    else:
+                        bm = last_member(l['base'])
+                    if bm and bm[0] in emb:
+                        t = prog.resolve(prog.unit_of(f), r['name'])
+                        if t is not None:
+                            handlers.setdefault(tuple(bm), set()).add(t.q)
+
+    owners = [f for f in prog.all_funcs() if f.blocks and any(e['ev'] == 'call' and e.get('callee') == 'free' and arg_record(e) for e in f.events())]
+    guards_memo = {}
+
+    def guards_of(rec, fld, K):
+        """facts about the block that hold at every registration of the member and that nothing in sight undoes while
+        the member may be registered: a path on which such a fact is found false has the member unregistered"""
+        k = (rec, fld)
+        if k in guards_memo:
+            return guards_memo[k]
+        guards_memo[k] = ()
+        cand = None
+        fs = [f for f in prog.all_funcs() if f.blocks]
+        # pass 0: registrations outside the member's own handler; pass 1: the handler re-arming its own member -- it cannot be
+        # the first registration, the fact held when the member was registered before and is undone by others only with the
+        # member explicitly unregistered (which cancels the pending handler call), so it holds at the handler's entry; it
+        # must not have been undone by this activation before the re-registration
+        for rearm in (False, True):
+            for f in fs:
+                if not any(e['ev'] == 'call' and e.get('callee') in K[0] for e in f.events()):
+                    continue
+                for g in rooted(f):
+                    E = _Emb(prog, g, rec, fld, K, handlers.get(k, ()))
+                    F = None
+                    for e in g.events():
+                        if E.is_member(e, K[0], None):
+                            base = E.member_addr(e['args'][0])[2]
+                            if E.own_handler(base) != rearm:
+                                continue
+                            if rearm and not cand:
+                                continue
+                            F = F if F is not None else E.facts(frozenset((base,) + G for G in cand) if rearm else frozenset())
+                            here = {x[1:] for x in (F.get((e['_b'], e['_i'])) or ()) if x[0] == base}
+                            cand = here if cand is None else (cand & here)
+        out = []
+        for G in sorted(cand or ()):
+            ok = True
+            for f in fs:
+                for g in rooted(f) if any(_falsifies(None, e, rec, G) for e in f.events()) else ():
+                    E = _Emb(prog, g, rec, fld, K, handlers.get(k, ()))
+                    for e in g.events():
+                        base = _falsifies(E, e, rec, G)
+                        if not base:
+                            continue
+                        S = E.states(base)
+                        if S.get((e['_b'], e['_i'])) == 'U':
+                            continue
+                        after = must_pass(g, lambda x: E.is_member(x, K[1], base), start_event=e)
+                        pts = [(pb, pi) for (pb, pi, _) in exits_of(g)] + [(g.exit, 0)]
+                        if not all(after.get(p) for p in pts if p in after):
+                            ok = False
+            if ok:
+                out.append(G)
+        guards_memo[k] = tuple(out)
+        return guards_memo[k]
+
+    done, detail = {}, {}
+    for f in sorted(owners, key=lambda f: f.q):
+        for g in rooted(f):
+            for e in g.events():
+                if not (e['ev'] == 'call' and e.get('callee') == 'free'):
+                    continue
+                rec = arg_record(e)
+                if rec is None or rec in registry:
+                    continue
+                for (fld, krec) in emb[rec]:
+                    K = api[krec]
+                    E = _Emb(prog, g, rec, fld, K, handlers.get((rec, fld), ()))
+                    base = E.an(e['args'][0])
+                    gs = guards_of(rec, fld, K)
+                    S = E.states(base, gs)
+                    s = S.get((e['_b'], e['_i']))
+                    if s is None:
+                        continue        # not reachable in this context
+                    k = (e.get('fn') or f.q, e['loc'], rec, fld)
+                    done[k] = done.get(k, True) and s == 'U'
+                    if s != 'U':
+                        detail[k] = 'in %s the member is %s here' % (g.name, {'R': 'registered', '?': 'not known to be unregistered'}.get(s, 'registered unless the call failed'))
+                    detail.setdefault((rec, fld), gs)
+    for k in sorted(done, key=lambda k: (str(k[0]), h18._locpos(k[1]), k[3])):
+        fnq, loc, rec, fld = k
+        gs = detail.get((rec, fld), ())
+        ctx.ob('R-C18m', '%s:free(%s):%s unregistered' % (str(fnq).split(':')[-1], rec, fld), done[k], loc=loc,
+               detail='on every path to this free, in every entry point that reaches it, %s.%s was unregistered since it was last registered, or '
+                      'the block is fresh from malloc with the member never (successfully) registered, or the activation is the one-shot '
+                      'member\'s own handler, or a fact that holds at every registration of the member and is only undone with the member '
+                      'unregistered is found false (%s); %s' % (rec, fld, ', '.join('%s %s' % (G[0], G[1]) for G in gs) or 'no such fact', detail.get(k, 'holds')),
+               fn=fnq)
+
+
+def _falsifies(E, e, rec, G):
+    """base (normalised spelling; True without E) of the block whose guard fact G this event may undo"""
+    if G[0] == 'eq' and e['ev'] == 'store':
+        lm = last_member(e['lhs'])
+        if lm and lm[0] == rec and lm[1] == G[1] and not (e.get('op') == '=' and 'rhs' in e and _const_text(e['rhs']) == G[2]):
+            if E is None:
+                return True
+            fo = E.field_of(e['lhs'])
+            return fo[2] if fo is not None else None
+    if G[0] == 'linked' and e['ev'] in ('call', 'enter') and e.get('callee') in LIST_DELS and e.get('args'):
+        if E is None:
+            a = strip(e['args'][0])
+            a = strip(a['e']) if isinstance(a, dict) and a.get('k') == 'addr' else None
+            lm = last_member(a) if isinstance(a, dict) else None
+            return bool(lm and lm[0] == rec and lm[1] == G[1]) or (a is None)
+        ma = E.member_addr(e['args'][0])
+        if ma is not None and ma[0] == rec and ma[1] == G[1]:
+            return ma[2]
+    return None
